@@ -472,7 +472,10 @@ def replay(col, case):
             from harness import wampwire as W
             lo, hi = LEN_RANGE[cname]
             if not (lo <= len(w) <= hi):
-                raise Violation("C08|%s|wrong-element-count-accepted" % cname, repr(w), c)
+                raise Violation("C08|%s|wrong-element-count-accepted" % cname, repr(brief(w)), c)
+            ppos = PAYLOAD_POS.get(cname)
+            if ppos is not None and len(w) > ppos + 1 and type(w[ppos]) == bytes:
+                raise Violation("C08|%s|wrong-element-count-accepted|payload-mode" % cname, "%d elements accepted although element %d is an opaque payload (must be the last): %r" % (len(w), ppos, brief(w)), c)
             strictness(ctx, m, cname, key, c, w)
             fixed_point(ctx, m, key, c)
             slot = str(c.get("slot", ""))
